@@ -208,6 +208,8 @@ where
         estimate: bool,
         write_set: &mut HashSet<LocationAndType>,
     ) {
+        #[cfg(feature = "verif")]
+        crate::verif::point(crate::verif::pt::DB_PUBLISH, self.version.txid);
         write_set.insert(location.clone());
         self.mv_memory
             .entry(location)
@@ -220,6 +222,8 @@ where
         address: Address,
         code_hash: B256,
     ) -> Result<Bytecode, DB::Error> {
+        #[cfg(feature = "verif")]
+        crate::verif::point(crate::verif::pt::DB_CODE, self.version.txid);
         let mut result = None;
         let mut read_version = ReadVersion::Storage;
         let location = LocationAndType::Code(address);
@@ -253,6 +257,8 @@ where
     type Error = DB::Error;
 
     fn basic(&mut self, address: Address) -> Result<Option<AccountInfo>, Self::Error> {
+        #[cfg(feature = "verif")]
+        crate::verif::point(crate::verif::pt::DB_BASIC, self.version.txid);
         let mut result = None;
         if self.beneficiary.matches(address) {
             let location = LocationAndType::Basic(address);
@@ -314,6 +320,8 @@ where
     }
 
     fn storage(&mut self, address: Address, index: U256) -> Result<U256, Self::Error> {
+        #[cfg(feature = "verif")]
+        crate::verif::point(crate::verif::pt::DB_STORAGE, self.version.txid);
         let reset_location = LocationAndType::StorageReset(address);
         let mut reset_version = ReadVersion::Storage;
         let mut reset_txid = None;
@@ -328,6 +336,8 @@ where
             reset_version = ReadVersion::MvMemory(TxVersion::new(txid, entry.incarnation));
         }
         self.read_set.insert(reset_location, reset_version);
+        #[cfg(feature = "verif")]
+        crate::verif::point(crate::verif::pt::DB_STORAGE, self.version.txid);
 
         let location = LocationAndType::Storage(address, index);
         let mut slot_version = ReadVersion::Storage;
